@@ -169,8 +169,12 @@ def quoted_strings(d):
             "a - b", "trailing-", "x" * 90, "&", "+", "a\x0bb", "a\x0cb",
             "-\n", "END\n", "=", ","]
     pool = [s for s in pool if all(c in cs for c in s)]
+    dashy = st.lists(st.sampled_from(["pre-", "post-", "-", "2-", "alpha", "beta", "x-",
+                                      "long-word-", "N/A", "end-", "a", "xxxxxxxxxxxx-",
+                                      "--", "-x"]),
+                     min_size=3, max_size=22).map(" ".join)
     content = st.one_of(st.sampled_from(pool), st.text(alphabet=cs, max_size=15),
-                        st.text(alphabet="ab \n\t-#/*=;'\"", max_size=10))
+                        st.text(alphabet="ab \n\t-#/*=;'\"", max_size=10), dashy)
 
     @st.composite
     def go(draw):
